@@ -481,6 +481,12 @@ func (c *RetryClient) Retry(ctx context.Context) {
 				c.newRetryByError = true
 				break
 			}
+			if c.newRetryByError {
+				// A deferred request failed and queued its retry by itself.
+				// Requests behind it must not overtake it on this connection.
+				c.retryQueue = append(c.retryQueue, oldRetryQueue[i+1:]...)
+				break
+			}
 		}
 	})
 }
